@@ -325,6 +325,29 @@ def _outer(db, chk, m, cls):
             if got[0] == "round":
                 got = got[1]
             check_term(chk, rule, f"[mem={mem}] percentage = sum / total * 100", where, got, [base])
+    # two ranks: every rank contributes its own sweep and its own per-kernel tables (nothing is done once after the loop with the last rank's rows)
+    TR0, TR1 = ("param", "TR", T.P("RANK0")), ("param", "TR", T.P("RANK1"))
+    calls2 = {"type_time": [], "aggr": []}
+
+    def hook2(I, name, pos, kw, node):
+        if name.endswith("_get_gpu_kernel_type_time"):
+            calls2["type_time"].append(pos[0] if pos else kw.get("gpu_kernels"))
+            return Frame(("typetime", len(calls2["type_time"])), known=["kernel_type", "sum"])
+        if name.endswith("_aggr_gpu_kernel_time"):
+            calls2["aggr"].append(pos[0] if pos else kw.get("gpu_kernel_time"))
+            return Frame(("aggr", len(calls2["aggr"])), known=["name", "sum", "max", "min", "mean", "std"])
+        return NotImplemented
+    I = Interp(db, call_hook=hook2)
+    runs = [r for r in I.explore(ref, lambda I: {"cls": Obj("cls", cls=cls), "visualize": False, "include_memory_kernels": False, "duration_ratio": T.P("duration_ratio"), "num_kernels": T.P("num_kernels"),
+                                                 "t": Obj("t", attrs={"traces": {T.P("RANK0"): Frame(TR0), T.P("RANK1"): Frame(TR1)}, "symbol_table": Obj("symtab")})}) if r.raised is None]
+    if len(runs) != 1:
+        chk.ob(rule, "two ranks: one path", None, where, found=len(runs))
+    else:
+        bases_tt = [f.base for f in calls2["type_time"] if isinstance(f, Frame)]
+        bases_ag = [f.base for f in calls2["aggr"] if isinstance(f, Frame)]
+        chk.ob(rule, "two ranks: the kernel-type sweep runs once per rank, on that rank's device rows", bases_tt == [TR0, TR1], where, found=[T.show(b) for b in bases_tt], accepted=[T.show(TR0), T.show(TR1)],
+               why="a sweep placed after the rank loop sees only the last rank's kernels: the kernel-type table of a multi-rank job is that of one rank")
+        chk.ob(rule, "two ranks: the per-kernel aggregation runs for every (rank, type)", bases_ag == [TR0, TR0, TR1, TR1], where, found=[T.show(b) for b in bases_ag], accepted=[T.show(x) for x in (TR0, TR0, TR1, TR1)])
     sm = H.shared_state_mutations(m, f3)
     chk.ob(rule, "the analysed type list is built afresh on every call (no mutation of a class- or module-level container)", not sm, where, found=sm, accepted="a list literal local to the call",
            why="appending MEMORY to a shared default list makes every LATER call analyse memory kernels too")
